@@ -13,6 +13,7 @@ import (
 	"strings"
 	"sync"
 	"time"
+	"unicode/utf8"
 
 	"github.com/VictoriaMetrics/metrics"
 	"github.com/cenkalti/backoff/v4"
@@ -210,9 +211,13 @@ func (m *Manager) DeleteTable(name string) error {
 	return m.store.Delete(storeName, tab.Ver)
 }
 
-// validTableName tells whether the name can be used as a single path element of the metadata store key.
+// maxTableNameLen keeps the table data directory name (<name>-<shard id>) within the usual 255 byte file name limit.
+const maxTableNameLen = 200
+
+// validTableName tells whether the name can be used as a single path element of the metadata store key
+// and as a part of the table data directory name.
 func validTableName(name string) bool {
-	return name != "" && !strings.Contains(name, "/")
+	return name != "" && len(name) <= maxTableNameLen && utf8.ValidString(name) && !strings.ContainsAny(name, "/\x00")
 }
 
 func storedTableName(name string) string {
